@@ -37,7 +37,7 @@ def required_cells(tier):
     req = {}
     for n in QUERIES:
         req["query:" + n] = 300 if q else 6000
-    for m in ("point-move", "point-attr", "point-item", "vector-item", "face-move"):
+    for m in ("point-move", "point-attr", "point-item", "vector-item", "face-move", "segment-item"):
         req["mutate:" + m] = 100 if q else 2000
     req["copy"] = 200
     req["history:returned-object-moved-by-caller"] = 100
@@ -62,7 +62,7 @@ def cases(rng, budget, widx, nworkers, tier):
             if r < 0.62:
                 script.append(["q", rng.choice(QUERIES), rng.randrange(11), rng.randrange(11)])
             elif r < 0.8:
-                script.append(["m", rng.choice(("point-move", "point-attr", "point-item", "vector-item", "face-move")),
+                script.append(["m", rng.choice(("point-move", "point-attr", "point-item", "vector-item", "face-move", "segment-item")),
                                rng.randrange(8), [rng.randint(-8, 8) for _ in range(3)], rng.randrange(3)])
             elif r < 0.9:
                 script.append(["c", rng.randrange(11)])
@@ -243,6 +243,15 @@ def judge(case):
                 tgt[ax] = tgt[ax] + (vec[2] or 1)
                 if all(c == 0 for c in (tgt[0], tgt[1], tgt[2])):
                     tgt[ax] = 1.0
+            elif how == "segment-item":
+                # an end point of a live Segment is replaced through item assignment (public API); the segment is
+                # the caller's to change - what matters is that later queries do not change it any further
+                si = (2, 3)[t % 2]
+                seg = pool[si]
+                seg[ax % 2] = G.Point(*[c / 4.0 + 0.25 for c in vec])
+                touched.add(si)
+                snaps = [M.snap(o) for o in W.everything()]
+                continue
             else:
                 tgt = W.faces[t % len(W.faces)]
                 tgt.move(G.Vector(*[c / 4.0 for c in vec]))
